@@ -72,7 +72,7 @@ def prepare(case, d):
     cols = {c["name"]: c for c in fr["cols"]}
     used = sorted({c["col"] for g in case["filters"]["groups"] for c in g})
     cells = {name: gfilters.cell_values(cols[name], n) for name in used}
-    p.groups_model = [[(c["col"], c["op"], _coerce(cols[c["col"]], gfilters.model_const(c["val"]), case)) for c in g]
+    p.groups_model = [[(c["col"], c["op"], _coerce(cols[c["col"]], gfilters.model_const(c["val"]), case, c["op"])) for c in g]
                       for g in case["filters"]["groups"]]
     p.verdict = {}
     for rid in p.rids:
@@ -82,7 +82,11 @@ def prepare(case, d):
     return p
 
 
-def _coerce(col, const, case):
+def _coerce(col, const, case, op="=="):
+    if col["kind"] == "category" and col.get("ordered") and op in ("<", "<=", ">", ">="):
+        # pandas orders an ordered categorical by category position, parquet statistics by
+        # label value: no single convention for "satisfies" -> incomparable (U)
+        return ("fuzzy", const)
     """A text constant against a non-text hive partition column is parsed by the
     library with the column's recorded type; mirror that when it is unambiguous."""
     if col["kind"] == "float" and col.get("sub") == "float32":
@@ -93,7 +97,11 @@ def _coerce(col, const, case):
         def f32(x):
             if isinstance(x, (int, float)) and not isinstance(x, bool):
                 with np.errstate(all="ignore"):
-                    return float(np.float32(x))
+                    y = float(np.float32(x))
+                # a constant that float32 cannot hold compares differently in the scalar
+                # (float32) and the isin / searchsorted (float64) code paths of numpy and
+                # pandas: no convention to hold the library to -> incomparable (U)
+                return y if (y == x or x != x) else ("fuzzy", x)
             return x
         return [f32(x) for x in const] if isinstance(const, list) else f32(const)
     return const
@@ -167,3 +175,40 @@ def shrink_moves(case):
         if "columns" in case:
             c["columns"] = None if case["columns"] is None else [x for x in case["columns"] if x in names]
         yield c
+
+
+REFUSAL_SITES = {"filter_val", "filter_in", "filter_not_in", "filter_out_stats", "filter_out_cats", "filter_row_groups",
+                 "_column_filter", "column", "val_from_meta", "val_to_num", "_val_to_num", "schema_element",
+                 "check_column_names", "_columns_from_filters"}
+
+
+def is_refusal(e):
+    """An exception raised while the filter expression itself is evaluated is a loud
+    refusal; one raised while data is being read is a failure of the read."""
+    sig = exc_sig(e)
+    fn = sig.rsplit(":", 1)[-1]
+    return fn in REFUSAL_SITES
+
+
+def notin_bound(case, p, group_rids):
+    """Marker for the known 'not in' defect (C05-not-in-bound): some `not in` list contains
+    the smallest or largest non-missing value the column takes in the row group."""
+    fr = case["frame"]
+    cols = {c["name"]: c for c in fr["cols"]}
+    for g, gm in zip(case["filters"]["groups"], p.groups_model):
+        for c, (col, op, val) in zip(g, gm):
+            if op != "not in" or not val:
+                continue
+            cells = gfilters.cell_values(cols[col], fr["n"])
+            present = [cells[r] for r in group_rids if cells[r] is not MISSING]
+            keys = [mfilters._key(x) for x in present]
+            if not keys:
+                continue
+            try:
+                lo, hi = min(keys), max(keys)
+            except TypeError:
+                continue
+            vals = [mfilters._key(v) for v in val if mfilters._cls(v) == mfilters._cls(present[0])]
+            if lo in vals or hi in vals:
+                return "|notin_bound"
+    return ""
